@@ -396,9 +396,24 @@ class C08(Prop):
             lines, st = filtration_history(rnd, rnd.randint(6, 16), checks=False)
             merge_stats(stats, st)
             nidx = 4
+            # heights on the points (so that the Euler integral has levels to cut)
+            w_ = impl.ImplWorld()
+            for l in lines: w_.exec(l)
+            f_ = w_.vars.get('f')
+            if f_ is not None:
+                for p_ in [x for x in impl.SimplicialComplex.simplices(f_) if impl.SimplicialComplex.orderOf(f_, x) == 0]:
+                    if rnd.random() < 0.8:
+                        lines.append('! setattr f %s sheight i%d' % (tok(p_), rnd.randint(1, 3)))
             for q in ['snapf s1 f', 'copy g f ?', 'complexes f p', '! complexes-partial f 1', '! complexes-partial f 2',
-                      'json j f', 'q f euler', 'q f counts', 'q f betti -', 'q f Z -', '! flag fl f', '! q f cmp le f']:
+                      'json j f', 'q f euler', 'q f counts', 'q f betti -', 'q f Z -', '! flag fl f', '! q f cmp le f',
+                      '! q f integrate sheight 0', '! q f integrate sheight 2', '! deepcopy fd f']:
                 lines += ['check save-all', q, 'check unchanged-all']
+            # a copy into a filtration that already uses a name born late in f: the copy is rejected when it gets there --
+            # the source must be where and what it was (the target, half filled, is the caller's problem)
+            if f_ is not None and len(list(f_.indices())) >= 2:
+                late = [x for x in f_.simplicesAddedAtIndex(list(f_.indices())[-1]) if impl.SimplicialComplex.orderOf(f_, x) == 0]
+                if late:
+                    lines += ['! newf t q0', '! add t [ ] %s -' % tok(rnd.choice(late)), 'check save f', '! copyinto f t', 'check unchanged f', 'q f getindex']
             # two filtrations (g: a copy that then gets an index of its own) iterated in step
             lines += ['! setindex g q%d' % rnd.choice([1, 3, 12, -8]), '! add g [ ] sGONLY -', 'check save-all', '! zipiter f g', 'check unchanged-all',
                       'q f indices 0', 'q f getindex']
